@@ -3865,6 +3865,8 @@ type scopeEntry struct {
 	hadConst bool                // was there a previous l.localConsts[name]?
 	hadVar   bool                // was there a previous l.localIsVar[name]?
 	hadPtr   bool                // was there a previous l.localIsPtr[name]?
+	hadAST   bool                // was there a previous l.localAbstractASTs[name]?
+	prevAST  parser.Expr         // previous l.localAbstractASTs[name] (if hadAST)
 }
 
 // scopeFrame represents one lexical scope level.
@@ -3900,12 +3902,21 @@ func (l *Lowerer) popScope() {
 		if !e.hadPtr {
 			delete(l.localIsPtr, e.name)
 		}
+		if e.hadAST {
+			l.localAbstractASTs[e.name] = e.prevAST
+		} else {
+			delete(l.localAbstractASTs, e.name)
+		}
 	}
 }
 
 // scopeSet records that a name is being bound in the current scope, saving
 // any previous binding for restoration by popScope.
 func (l *Lowerer) scopeSet(name string) {
+	// The new binding hides an abstract const of the same name (the abstract
+	// const path registers its AST again right after this call).
+	prevAST, hadAST := l.localAbstractASTs[name]
+	delete(l.localAbstractASTs, name)
 	if len(l.scopeStack) == 0 {
 		return
 	}
@@ -3930,6 +3941,8 @@ func (l *Lowerer) scopeSet(name string) {
 		hadConst: hadConst,
 		hadVar:   hadVar,
 		hadPtr:   hadPtr,
+		hadAST:   hadAST,
+		prevAST:  prevAST,
 	})
 }
 
